@@ -353,6 +353,7 @@ class Result:
         self.verus = {}
         self.solver_time_s = 0.0
         self.notes = []
+        self.mutants = None
 
 
 def short(h):
@@ -615,7 +616,7 @@ def fill_extracts(tpl, u, files, anchors, rewrites_applied=None, rewrite_key="re
         text = files[rel].decode()
         what = u["id"] + "/" + ex["name"]
         if ex["kind"] == "slice":
-            body, l0, l1 = extract_between(text, ex["start"], ex["end"], what)
+            body, l0, l1 = extract_between(text, ex["start"], ex["end"], what, not ex.get("end_exclusive", False))
             anchors[u["id"]][ex["name"]] = "%s:%d-%d" % (rel, l0, l1)
         elif ex["kind"] == "fn":
             sig, body_, l0 = extract_fn(text, ex["anchor"], what)
@@ -972,6 +973,7 @@ def write_evidence(pid, tier, seed, prop, units, res, anchors, diff_hash, remove
         "cover_lost": res.cover_lost,
         "canary": res.canary,
         "undecided": res.undecided,
+        "mutant_self_test": res.mutants,
         "refuted": [r["obligation"] for r in res.refuted],
         "known_findings_hit": known_hits,
         "overlay_diff_sha256": diff_hash,
@@ -1132,6 +1134,17 @@ def main(argv):
             suffix = "" if info["outcome"] in ("confirmed", "confirmed-other") else " no-failing-input-found"
             lines.append("VIOLATION property=%s replay=%s%s" % (pid, rpath, suffix))
             lines.append("  obligation %s refuted by %s; %s" % (rf["obligation"], rf["engine"], "; ".join(d.replace("\n", " ")[:160] for d in rf["descs"][:1])))
+        if tier == "thorough" and not only_units and not os.environ.get("VERIF_NO_MUTANTS") \
+                and os.path.isdir(os.path.join(VERIF, "mutants", pid)):
+            # contract self-test on private copies of the tree (never /repo); informational only
+            log("  thorough: mutant self-test (vlib/mutants.py %s)" % pid)
+            env = dict(os.environ)
+            env.pop("VERIF_SCRATCH", None)
+            mp = subprocess.run([sys.executable, os.path.join(VERIF, "vlib", "mutants.py"), pid, "quick"],
+                                capture_output=True, text=True, env=env)
+            rows = [l for l in mp.stdout.split("\n") if l.strip()]
+            res.mutants = {"summary": rows[-1] if rows else "no output", "rows": rows[:-1]}
+            log("  " + res.mutants["summary"])
         assumptions = list(prop.get("assumptions", []))
         for u in units:
             assumptions += ["[%s] %s" % (u["id"], a) for a in u.get("assumptions", [])]
